@@ -352,11 +352,16 @@ func (p *program) schemaArgs(s *rs.Schema) string {
 	switch {
 	case s.BadType != "":
 		b.WriteString(s.BadType)
+	case s.Typedef && s.BadSub != "":
+		b.WriteString(s.BadSub)
 	case s.Typedef:
 		b.WriteString(typeText(s.Sub, s.Lit))
 	default:
 		b.WriteString(typeText(s.Type, s.Lit))
-		if s.Type == "tagged-value" && s.Sub != "" {
+		if s.Type == "tagged-value" && s.BadSub != "" {
+			b.WriteByte(' ')
+			b.WriteString(s.BadSub)
+		} else if s.Type == "tagged-value" && s.Sub != "" {
 			b.WriteByte(' ')
 			b.WriteString(typeText(s.Sub, !s.Lit))
 		}
@@ -447,7 +452,9 @@ func (p *program) ref(r *rs.Ref) string {
 		text := ""
 		p.n++
 		name := fmt.Sprintf("n%d", p.n)
-		text = p.defType(r.Schema, name)
+		sc := *r.Schema
+		sc.Typedef = false // s:deftype has no typedef form: same schema, string-name form
+		text = p.defType(&sc, name)
 		p.prelude = append(p.prelude, text)
 		if r.Kind == "defsym" {
 			return "'" + name
